@@ -121,7 +121,7 @@ func runC15(c *core.Ctx) {
 			bsdiffSite = s
 		}
 	}
-	c.Floor("R15.1", "concurrent units", nUnits, 8)
+	c.Floor("R15.1", "concurrent units", nUnits, 4)
 	orderedFanInSite(c, "R15.3", bsdiffSite)
 
 	// reachable set
